@@ -312,7 +312,8 @@ class Interp(object):
                 # moving / re-adding a node that already is a child of p must not duplicate it
                 kid = p._child_nodes[(a["pos"] // 7) % len(p._child_nodes)]
                 if how == "reinsert_existing":
-                    ctx.call(key, p.insert_child, pos % len(p._child_nodes), kid)
+                    # any index is legal, including len (move to the end) and beyond
+                    ctx.call(key, p.insert_child, a["pos"] % (len(p._child_nodes) + 3), kid)
                 else:
                     ctx.call(key, p.add_child, kid)
                 t = None
@@ -443,7 +444,7 @@ def arg_grid(op, nn):
         out = [{"f": 2.0}]
     elif op == "add_child":
         out = [{"t": t, "how": h, "pos": 0} for t in T for h in ("add_child", "new_child", "insert_child", "insert_new_child")] + [
-            {"t": t, "how": h, "pos": p} for t in T for h in ("reinsert_existing", "add_existing") for p in range(0, 21, 4)]
+            {"t": t, "how": h, "pos": p} for t in T for h in ("reinsert_existing", "add_existing") for p in range(0, 36)]
     elif op == "set_child_nodes":
         out = [{"t": t, "seed": 1} for t in T]
     elif op == "set_rooted":
